@@ -13,6 +13,10 @@ def run(tier, seed, t0):
     data, meta, summ, events, out = oc.replay(PID, tier, seed)
     v = vlib.Verdict(PID)
     nrel = oc.classify_rel(v, events)
+    for e in events:
+        if e["op"] == "dual":
+            v.violation({"property": PID, "event": e, "what": "%s give different answers (%s vs %s) for A=%s B=%s" % (
+                e["calls"], e["r1"], e["r2"], json.dumps(e["A"])[:250], json.dumps(e["B"])[:250])})
     laws = [e for e in events if e["op"] in ("law", "equiv")]
     lp = os.path.join(out, "laws.ndjson")
     open(lp, "w").write("".join(json.dumps(e) + "\n" for e in laws))
